@@ -25,6 +25,7 @@ def run(chk):
 
     chk.attempt(r13h, chk, 'R06.h')
     chk.attempt(r06i, chk)
+    chk.attempt(r06j, chk)
 
 
 def pref_sets(repo):
@@ -298,3 +299,36 @@ def r06i(chk, rid='R06.i'):
     if sites < 30:
         raise AnalysisError(f'only {sites} serializer calls found in the DOM classes (30+ confirmed by hand)')
     chk.extra['serializer_call_sites'] = sites
+
+
+def r06j(chk, rid='R06.j'):
+    chk.rule(rid, 'dropping comments drops exactly the comments, decided by evaluation: CSSSerializer.do_CSSComment is evaluated for empty, plain and `/*!` comments with keepComments on and off - the text is written iff the preference is on; CSSSerializer.do_stylesheets_mediaquery, writing through the source\'s own Out class, is evaluated for a media query with a comment between its words, in front of them and behind them: with keepComments off the words of the query are all still there and still separated, with it on the comment stands between them')
+    from sa.absint import Evaluator, Raised, Record
+
+    m = chk.repo.mod(SER)
+    fn = m.get('CSSSerializer.do_CSSComment')
+    for txt in ('/*a*/', '/*! licence */', '/**/', '/*!*/', ''):
+        for keep in (True, False):
+            got = Evaluator(fn, module=m, cls='CSSSerializer').run(self=Record(prefs=Record(keepComments=keep)), rule=Record(_cssText=txt, cssText=txt))
+            want = txt if keep else ''
+            chk.ob(rid, SER, 'CSSSerializer.do_CSSComment', f'comment {txt!r} with keepComments={keep} is written as {want!r}', got == want, f'written as {got!r}: a comment survives keepComments=False (and the minified preset), or is lost although comments are kept', trivial=True)
+    mq = m.get('CSSSerializer.do_stylesheets_mediaquery')
+    for keep in (True, False):
+        prefs = Record(spacer=' ', selectorCombinatorSpacer=' ', keepComments=keep, indentClosingBrace=False, listItemSpacer=' ', propertyNameSpacer=' ', paranthesisSpacer=' ', lineSeparator='\n', minimizeColorHash=True)
+        ser = Record(prefs=prefs, _level=0)
+
+        class CommentM(Record):
+            @property
+            def cssText(self):
+                return Evaluator(fn, module=m, cls='CSSSerializer').run(self=ser, rule=Record(_cssText='/*c*/'))
+
+        for label, items in (('between the words', [('IDENT', 'print'), (CommentM, CommentM()), ('IDENT', 'and'), ('CHAR', '('), ('IDENT', 'color'), ('CHAR', ')')]),
+                             ('in front', [(CommentM, CommentM()), ('IDENT', 'print'), ('IDENT', 'and'), ('CHAR', '('), ('IDENT', 'color'), ('CHAR', ')')]),
+                             ('behind', [('IDENT', 'print'), ('IDENT', 'and'), ('CHAR', '('), ('IDENT', 'color'), ('CHAR', ')'), (CommentM, CommentM())])):
+            query = Record(wellformed=True, seq=[Record(type=t, value=v) for t, v in items])
+            got = Evaluator(mq, intrinsics={'Out': lambda s: out_model(chk, s)}, module=m, cls='CSSSerializer', model_types=(CommentM,)).run(self=ser, mediaquery=query)
+            words = got.replace('/*c*/', ' /*c*/ ').split() if isinstance(got, str) else None
+            want = [v if isinstance(v, str) else '/*c*/' for _, v in items if isinstance(v, str) or keep]
+            want = ' '.join(want).replace('( color )', '(color)').split()
+            ok = words is not None and ' '.join(words).replace('( ', '(').replace(' )', ')').split() == want
+            chk.ob(rid, SER, 'CSSSerializer.do_stylesheets_mediaquery', f'comment {label}, keepComments={keep}: the query is written as `{" ".join(want)}` (white space aside)', ok, f'written as {got!r}: dropping the comment joins or loses the words around it')
